@@ -14,29 +14,33 @@
 #ifndef SEQTYPE
 #define SEQTYPE Array
 #endif
-static int64_t ref[64]; static int nref;
+static int64_t rseq[64]; static int nrseq;
+/* leave recognisable junk in the allocator's free lists so that uninitialised slots do not happen to be zero */
+static void dirty_heap(void) { void* b[32]; for (int i = 0; i < 32; i++) { b[i] = malloc(32 * (size_t)(i + 1)); if (b[i]) memset(b[i], 0x5A, 32 * (size_t)(i + 1)); } for (int i = 0; i < 32; i++) free(b[i]); }
 static int same(var a, const char* what) {
-  if ((int)len(a) != nref) { printf("REPRODUCED: %s: len is %d, reference %d\n", what, (int)len(a), nref); return 0; }
-  for (int i = 0; i < nref; i++) if (c_int(get(a, $I(i))) != ref[i]) { printf("REPRODUCED: %s: element %d is %lld, reference %lld\n", what, i, (long long)c_int(get(a, $I(i))), (long long)ref[i]); return 0; }
-  int n = 0; foreach (x in a) { if (n >= nref || c_int(x) != ref[n]) { printf("REPRODUCED: %s: forward iteration disagrees at step %d\n", what, n); return 0; } n++; }
-  if (n != nref) { printf("REPRODUCED: %s: forward iteration yields %d items of %d\n", what, n, nref); return 0; }
-  n = 0; for (var x = iter_last(a); x isnt Terminal && n <= nref + 2; x = iter_prev(a, x)) { n++; }
-  if (n != nref) { printf("REPRODUCED: %s: backward iteration yields %d items of %d\n", what, n, nref); return 0; }
+  for (int i = 0; i < (int)len(a) && i < 64; i++) { int okt = 0; try { okt = (type_of(get(a, $I(i))) is Int); } catch (e) { okt = 0; }
+    if (!okt) { printf("REPRODUCED: %s: element %d does not carry the element type in its header\n", what, i); return 0; } }
+  if ((int)len(a) != nrseq) { printf("REPRODUCED: %s: len is %d, reference %d\n", what, (int)len(a), nrseq); return 0; }
+  for (int i = 0; i < nrseq; i++) if (c_int(get(a, $I(i))) != rseq[i]) { printf("REPRODUCED: %s: element %d is %lld, reference %lld\n", what, i, (long long)c_int(get(a, $I(i))), (long long)rseq[i]); return 0; }
+  int n = 0; foreach (x in a) { if (n >= nrseq || c_int(x) != rseq[n]) { printf("REPRODUCED: %s: forward iteration disagrees at step %d\n", what, n); return 0; } n++; }
+  if (n != nrseq) { printf("REPRODUCED: %s: forward iteration yields %d items of %d\n", what, n, nrseq); return 0; }
+  n = 0; for (var x = iter_last(a); x isnt Terminal && n <= nrseq + 2; x = iter_prev(a, x)) { n++; }
+  if (n != nrseq) { printf("REPRODUCED: %s: backward iteration yields %d items of %d\n", what, n, nrseq); return 0; }
   return 1;
 }
-static var fresh(void) { var a = new(SEQTYPE, Int); nref = 0; for (int i = 0; i < N; i++) { push(a, $I(10 + i)); ref[nref++] = 10 + i; } return a; }
+static var fresh(void) { dirty_heap(); var a = new(SEQTYPE, Int); nrseq = 0; for (int i = 0; i < N; i++) { push(a, $I(10 + i)); rseq[nrseq++] = 10 + i; } return a; }
 int main(int argc, char** argv) {
   int bad = 0; var a;
   a = fresh(); bad |= !same(a, "after construction");
   /* push_at */
   a = fresh(); { int threw = 0; try { push_at(a, $I(99), $I(IDX)); } catch (e in IndexOutOfBoundsError) { threw = 1; }
     if (threw) { bad |= !same(a, "after a push_at that raised IndexOutOfBoundsError (must be unchanged)"); }
-    else if (IDX >= 0 && IDX <= N) { memmove(&ref[IDX + 1], &ref[IDX], sizeof(int64_t) * (nref - IDX)); ref[IDX] = 99; nref++; bad |= !same(a, "after push_at"); } }
+    else if (IDX >= 0 && IDX <= N) { memmove(&rseq[IDX + 1], &rseq[IDX], sizeof(int64_t) * (nrseq - IDX)); rseq[IDX] = 99; nrseq++; bad |= !same(a, "after push_at"); } }
   /* pop_at */
   a = fresh(); { int threw = 0; try { pop_at(a, $I(IDX)); } catch (e in IndexOutOfBoundsError) { threw = 1; }
     if (threw) { bad |= !same(a, "after a pop_at that raised IndexOutOfBoundsError (must be unchanged)"); }
-    else if (IDX >= 0 && IDX < N) { memmove(&ref[IDX], &ref[IDX + 1], sizeof(int64_t) * (nref - IDX - 1)); nref--; bad |= !same(a, "after pop_at"); } }
+    else if (IDX >= 0 && IDX < N) { memmove(&rseq[IDX], &rseq[IDX + 1], sizeof(int64_t) * (nrseq - IDX - 1)); nrseq--; bad |= !same(a, "after pop_at"); } }
   /* pop on empty */
-  a = new(SEQTYPE, Int); nref = 0; { try { pop(a); } catch (e in IndexOutOfBoundsError) { } bad |= !same(a, "after pop on an empty container"); }
+  a = new(SEQTYPE, Int); nrseq = 0; { try { pop(a); } catch (e in IndexOutOfBoundsError) { } bad |= !same(a, "after pop on an empty container"); }
   return bad;
 }
